@@ -607,8 +607,11 @@ def _lstr(s: str) -> str:
     return '"' + s.replace("\\", "\\\\").replace('"', '\\"') + '"'
 
 
-def number_atoms(tree, b_code: Dict[str, int], c_code: Dict[str, int], exc_code: Dict[str, int], base=1000):
-    """codes of everything the tree mentions; names outside the registries get fresh codes >= base (sorted by name)"""
+def number_atoms(tree, b_code: Dict[str, int], c_code: Dict[str, int], exc_code: Dict[str, int], base=1000,
+                 other_code: Optional[Dict[str, int]] = None):
+    """codes of everything the tree mentions; names outside the registries get fresh codes >= base (sorted by name).
+    `other_code` (optional, additive): fixed codes of `other:<name>` results shared with a Lean model; names outside it
+    are numbered from 10**9 upwards (without it: 0, 1, ... in sorted order, as before)"""
     st = tree_stats(tree)
     bs, cs, es, others = {}, {}, {}, {}
     kinds = {}
@@ -645,14 +648,20 @@ def number_atoms(tree, b_code: Dict[str, int], c_code: Dict[str, int], exc_code:
                 es[n] = 100 + ne
                 ne += 1
         elif r.startswith("other:"):
-            others[r[6:]] = no
+            if other_code is None:
+                others[r[6:]] = no
+            elif r[6:] in other_code:
+                others[r[6:]] = other_code[r[6:]]
+                continue
+            else:
+                others[r[6:]] = 10 ** 9 + no
             no += 1
     return bs, cs, es, others
 
 
-def emit_lean(tree, namespace: str, header: str, b_code, c_code, exc_code, info: str = "") -> str:
+def emit_lean(tree, namespace: str, header: str, b_code, c_code, exc_code, info: str = "", other_code=None) -> str:
     """the tree as a hash-consed chain of `def`s (`n<i> : PEval.DT.DTree`) and `tree : Option DTree := some n<root>`"""
-    bs, cs, es, others = number_atoms(tree, b_code, c_code, exc_code)
+    bs, cs, es, others = number_atoms(tree, b_code, c_code, exc_code, other_code=other_code)
     ids: Dict[Any, int] = {}
     lines: List[str] = []
 
